@@ -140,7 +140,21 @@ pub fn load_consensus(pow: &str) -> Consensus {
     spec.build_consensus().expect("build consensus")
 }
 
+/// `code` of the world script that is the genesis block's always_success cell (hash type data).
+pub const CODE_ALWAYS_SUCCESS: u8 = 0xA5;
+
+pub fn always_success_data() -> &'static [u8] {
+    include_bytes!("../../specs/cells/always_success")
+}
+
 pub fn script_of(ws: &WScript) -> Script {
+    if ws.code == CODE_ALWAYS_SUCCESS {
+        return Script::new_builder()
+            .code_hash(CellOutput::calc_data_hash(always_success_data()))
+            .hash_type(ScriptHashType::Data.into())
+            .args(ws.args.pack())
+            .build();
+    }
     let mut code = [0u8; 32];
     code[0] = 0xC0;
     code[1] = ws.code;
